@@ -194,11 +194,11 @@ def ratSqrt (x : Rat) : Rat :=
   mkRat (Int.ofNat (Nat.sqrt ((x.num.toNat * 4 ^ 160) / x.den))) (2 ^ 160)
 
 /-- the four assertions at the end of `normalize` (`np.allclose(norms, 1)`: `|n - 1| ≤ 1e-8 + 1e-5`;
-    `np.isclose(dot, 0)`: `|d| ≤ 1e-8`), evaluated on squared norms. -/
+    `np.isclose(dot, 0, atol=1e-5)`: `|d| ≤ 1e-5`), evaluated on squared norms. -/
 def transformOK (t : M3 Rat) : Bool :=
   let lo : Rat := 1 - (1001 : Rat) / 100000000
   let hi : Rat := 1 + (1001 : Rat) / 100000000
-  let tol : Rat := (1 : Rat) / 100000000
+  let tol : Rat := (1 : Rat) / 100000
   let okN := fun (r : V3 Rat) => decide (lo * lo ≤ V3.normSq r) && decide (V3.normSq r ≤ hi * hi)
   let okD := fun (r s : V3 Rat) => decide (ratAbs (V3.dot r s) ≤ tol)
   okN t.r0 && okN t.r1 && okN t.r2 && okD t.r0 t.r1 && okD t.r0 t.r2 && okD t.r1 t.r2
